@@ -177,6 +177,22 @@ Theorem C09_cache_transparent :
     cache_coherent is_word_char is_ecma_start is_ecma_char env (snd (get_replacer_data env should_cache max_size rep c)).
 Proof. intros. apply get_replacer_data_transparent. assumption. Qed.
 
+(* The grammar is unambiguous: a replacement string has at most one parse, so together with
+   C09_replacement_parser_spec_partial the grammar DETERMINES the rule list of every accepted
+   replacement. *)
+Theorem C09_replacement_grammar_unambiguous :
+  forall env s i1 i2, rep_spec env s i1 -> rep_spec env s i2 -> i1 = i2.
+Proof. intros env s i1 i2. apply rep_spec_functional. Qed.
+
+(* The only errors the parser reports: "capture group number out of range" (a digit run above
+   MaxInt32 after $ or ${), and in ECMAScript mode a malformed ${name} (invalid name, bad \u escape). *)
+Theorem C09_parser_error_codes :
+  forall env rep c,
+    new_replacer_data env rep = Err c ->
+    c = E_CapOutOfRange \/
+    (use_e env = true /\ (c = E_InvalidECMAName \/ c = E_TooFewHex \/ c = E_InvalidHex \/ c = E_MissingBrace)).
+Proof. intros env rep c H. exact (new_replacer_data_err _ _ _ env rep c H). Qed.
+
 End Oracles.
 (* the theorems of the section, now quantified over the three oracles *)
 Print Assumptions C09_replace_ltr_fold.
@@ -192,6 +208,8 @@ Print Assumptions C09_replacement_parser_spec_partial.
 Print Assumptions C09_replacer_data_ok.
 Print Assumptions C09_replacer_data_no_panic.
 Print Assumptions C09_cache_transparent.
+Print Assumptions C09_replacement_grammar_unambiguous.
+Print Assumptions C09_parser_error_codes.
 
 (* Split, both directions: equals the specification fold (text between successive matches
    interleaved with the groups 1..n of each match; right-to-left = the same walk from the end,
